@@ -69,6 +69,7 @@ def main():
             print(c, "exit", out.returncode, "violations", len(viol), sigs[:3])
     finally:
         sh(["git", "-C", "/repo", "checkout", "--", "."])
+        sh(["git", "-C", V, "checkout", "--", "lean/Circomspect/Gen"])   # tables regenerated from the mutated code
         for p, t in saved.items():
             open(p, "w").write(t)
         shutil.rmtree(os.path.join(V, "replays"), ignore_errors=True)
